@@ -107,13 +107,17 @@ def write_ninja():
     os.makedirs(obj, exist_ok=True)
     os.makedirs(binp, exist_ok=True)
     inc = "-I%s -I%s -I%s/engine" % (REPO, SAN, VERIF)
-    libs = [os.path.join(SAN, "lib", x) for x in ("libdbus-daemon-internal.a", "libdbus-internal.a", "libdbus-1.so")]
+    import glob as _glob
+    dbus1_objs = sorted(_glob.glob(os.path.join(SAN, "dbus", "CMakeFiles", "dbus-1.dir", "*.o")))
+    dbus1_static = os.path.join(obj, "libdbus-1-static.a")
+    libs = [os.path.join(SAN, "lib", x) for x in ("libdbus-daemon-internal.a", "libdbus-internal.a")] + [dbus1_static]
     L = []
     L.append("cxx = %s" % CXX)
     L.append("cxxflags = %s %s" % (CXXFLAGS, inc))
     L.append("rule cc\n  command = $cxx $cxxflags $extra -MD -MF $out.d -c $in -o $out\n  depfile = $out.d\n  deps = gcc\n  description = CXX $out")
     L.append("rule ar\n  command = rm -f $out && ar rcs $out $in\n  description = AR $out")
-    L.append("rule link\n  command = $cxx $ldsan $in -o $out -L%s/lib -Wl,-rpath,%s/lib -ldbus-daemon-internal -ldbus-internal -ldbus-1 -lexpat -lpthread\n  description = LINK $out" % (SAN, SAN))
+    L.append("rule link\n  command = $cxx $ldsan $in -o $out -L%s/lib -Wl,-rpath,%s/lib -ldbus-daemon-internal -ldbus-internal %s -lexpat -lpthread -lrt\n  description = LINK $out" % (SAN, SAN, dbus1_static))
+    L.append("build %s: ar %s" % (dbus1_static, " ".join(dbus1_objs)))
     L.append("rule cstub\n  command = cc -O1 -g $in -o $out\n  description = CC $out")
     eng_objs = []
     srcs = list(ENGINE_SRCS) + [s for s in OPTIONAL_ENGINE_SRCS if os.path.exists(os.path.join(VERIF, "engine", s))]
@@ -130,6 +134,15 @@ def write_ninja():
         b = os.path.join(binp, name)
         L.append("build %s: link %s %s | %s\n  ldsan = %s" % (b, o, arch, " ".join(libs), "-fsanitize=fuzzer,address,undefined" if fuzz else "-fsanitize=address,undefined"))
         bins.append(b)
+    tooldir = os.path.join(VERIF, "tools")
+    if os.path.isdir(tooldir):
+        for fn in sorted(os.listdir(tooldir)):
+            if fn.endswith(".cc"):
+                o = os.path.join(obj, "tool_" + fn[:-3] + ".o")
+                L.append("build %s: cc %s\n  extra = -fsanitize=fuzzer-no-link" % (o, os.path.join(tooldir, fn)))
+                b = os.path.join(binp, fn[:-3])
+                L.append("build %s: link %s %s | %s\n  ldsan = -fsanitize=address,undefined" % (b, o, arch, " ".join(libs)))
+                bins.append(b)
     stubdir = os.path.join(VERIF, "stubs")
     if os.path.isdir(stubdir):
         for fn in sorted(os.listdir(stubdir)):
